@@ -138,6 +138,7 @@ type fgen struct {
 	guardInfos    []*guardInfo
 	freshRefs     map[string]bool // refs allocated by this function
 	ginvExempt    []string        // refs of objects under construction at the current call
+	localArrays   []*localArray   // arrays made by this function (see localarr.go)
 	fullHavocs    []*fullHavoc // unbounded-frame calls seen so far
 	factSeen      map[string]bool
 	constSort     map[string]string // declared constants and their sorts
